@@ -197,18 +197,19 @@ public:
 
   void removeFront(usize size)
   {
-    bufferStart += size;
-    if(bufferStart >= bufferEnd)
+    if(size >= (usize)(bufferEnd - bufferStart))
     {
       bufferStart = bufferEnd = buffer ? buffer : (byte*)&_capacity;
       if(buffer)
         *bufferEnd = 0;
     }
+    else
+      bufferStart += size;
   }
 
   void removeBack(usize size)
   {
-    if(bufferStart + size >= bufferEnd)
+    if(size >= (usize)(bufferEnd - bufferStart))
       bufferStart = bufferEnd = buffer ? buffer : (byte*)&_capacity;
     else
       bufferEnd -= size;
